@@ -82,7 +82,7 @@ func init() {
 		ID:    "C09",
 		Level: "exploration",
 		Rule: "phase 0 (exhaustive): every sequence of up to L building operations (L=3 quick, L=5 thorough) over the 13-operation alphabet {AddHeaders(0|1|2 items), AddRowItems(0|1|3), AddSeparator, AppendNewRow, Add on the last row handle, AddRow(prebuilt 0|2 cells), Add on AllRows()[last] (possibly a separator), AddRow(NewRowSizedFor+1)} crossed with 6 item flavours (plain, multi-line, declared size below/above actual, unicode/invalid, empty/nil/rune), each table then put under one of five legal configurations (none; default right; default centre; two columns right/centre; left + centre + skipable default + last column right); " +
-			"phase 1 (exhaustive): all sequences of length L+1 for the flavour whose items declare less than they have (and, in quick, the plain flavour); phase 2: random sequences of up to 40 operations with items from the whole item zoo. Every resulting table is rendered through csv/html/json/markdown wrappers, a text wrapper under every registered decoration (the six built-ins plus one complete and seven partially filled, never Populate()d decorations registered by the check), and (for every 8th sequence of the exhaustive phases and all random ones) auto.Render for every listed style, under a panic guard; all routes render the same table object one after the other in an order that varies from case to case. " +
+			"phase 1 (exhaustive): all sequences of length L+1 for the flavour whose items declare less than they have (and, in quick, the plain flavour); phase 2: random sequences of up to 40 operations with items from the whole item zoo, one item in 15 being an item that holds a table of its own and renders it (as text from String, as JSON from MarshalJSON) when the outer table is rendered. Every resulting table is rendered through csv/html/json/markdown wrappers, a text wrapper under every registered decoration (the six built-ins plus one complete and seven partially filled, never Populate()d decorations registered by the check), and (for every 8th sequence of the exhaustive phases and all random ones) auto.Render for every listed style, under a panic guard; all routes render the same table object one after the other in an order that varies from case to case. " +
 			"Distinct = distinct (sequence, flavour) pairs; non-trivial = the table has at least one row or header.",
 		Assumptions: []string{
 			"tables are built through the public building API only (custom Table implementations that misreport NColumns are outside the statement)",
@@ -233,6 +233,11 @@ func c09Random(c *Ctx, i int, r *gen.R) {
 	var specs []gen.ItemSpec
 	b := &c09Builder{t: tabular.New()}
 	b.nextIt = func() interface{} {
+		if r.Chance(1, 15) {
+			// an item which renders a table of its own when asked for its text or its JSON form
+			specs = append(specs, gen.StrItem("(an item holding a nested table)"))
+			return newNestedTableItem(r.Word(), r.Word())
+		}
 		s := r.AnyItem(fam, 5, 2)
 		specs = append(specs, s)
 		return s.Make().Item
